@@ -80,6 +80,14 @@ PLAN = {
  "C13j-text-writer-prerounds": ["C13"], "C14j-f3-third-frequency-by-second-size": ["C14"], "C15j-decode-from-one-fill-buf": ["C15"],
  "C16j-text-reader-deletes-cr": ["C16"], "C17j-genotype-table-by-position": ["C17"], "C18j-guard-records-interrupted": ["C18"],
  "C19j-axis-iter-fold-override": ["C19"],
+ # round 11
+ "C01k-samples-file-split-keeps-cr": ["C01"], "C02k-inline-sample-names-trimmed": ["C02"], "C03k-subnormal-coefficients-dropped": ["C03"],
+ "C04k-pairwise-sum-drops-last-slice": ["C04"], "C05k-long-row-count-shortcut": ["C05"], "C06k-factorial-table-171": ["C06"],
+ "C07k-debug-dump-on-stdout": ["C07"], "C08k-multiallelic-counts-toward-total": ["C08"], "C09k-empty-map-allowed-without-samples": ["C09"],
+ "C10k-symbolic-contig-unknown": ["C10"], "C11k-counts-not-reset-without-calls": ["C11"], "C12k-lone-missing-allele-arm-removed": ["C12"],
+ "C13k-normalize-by-absolute-total": ["C13"], "C14k-r0-denominator-plus-epsilon": ["C14"], "C15k-u64-halved-without-sticky-bit": ["C15"],
+ "C16k-text-values-cut-at-hash": ["C16"], "C17k-r1-guard-by-element-count": ["C17"], "C18k-one-byte-fast-path-one-refill": ["C18"],
+ "C19k-sum-skips-nonpositive": ["C19"],
 }
 OWN_ONLY = "--own" in sys.argv          # only the check of the seed's own property (the first one planned)
 seeds = [a for a in sys.argv[1:] if a != "--own"] or sorted(PLAN)
